@@ -24,8 +24,8 @@ import (
 	"io/ioutil"
 	"math/big"
 	"net/http"
-	"net/url"
 	"net/http/httptest"
+	"net/url"
 	"path/filepath"
 	"reflect"
 	"runtime"
@@ -78,10 +78,17 @@ func verifGoid() int64 {
 	return id
 }
 
+// the parking point between the row read and the return of LoadUserProfile is taken only by the groups
+// that ask for it (it multiplies the schedules of every load)
+var verifLoadedOn atomic.Bool
+
 // called by the instrumented copies of storage.go / 2fa_*.go
 func verifYield(point string) {
 	s := verifSchedPtr.Load()
 	if s == nil {
+		return
+	}
+	if point == "Loaded" && !verifLoadedOn.Load() {
 		return
 	}
 	g := verifGoid()
@@ -167,6 +174,21 @@ func verifRunSchedule(bodies []func(), choose func(step int, runnable []int) int
 		}
 		pick := choose(step, runnable)
 		th := s.threads[pick]
+		if th.done {
+			// the replayed prefix names a request that has already finished in this run: the requests did
+			// not pass the same parking points as in the run the prefix was taken from
+			for _, o := range s.threads {
+				if !o.done {
+					o.done = true
+					close(o.resume)
+				}
+			}
+			go func() {
+				for range s.events {
+				}
+			}()
+			return trace, fmt.Errorf("not reproducible: step %d of the replayed schedule names request %d, which has already finished (trace so far%s)", step, pick, c16AllPoints(trace))
+		}
 		trace = append(trace, vStep{thread: pick, point: th.parked, runnable: runnable})
 		th.resume <- struct{}{}
 		if err := wait(pick); err != nil {
@@ -291,11 +313,12 @@ const c16BootOTP = "bootstrap-otp-value"
 const c16TotpSecret = "JBSWY3DPEHPK3PXPJBSWY3DPEHPK3PXP"
 
 type c16World struct {
-	env      *verifEnv
-	token    *c16Token
-	admin    *http.Cookie
-	signBody []byte // the token's answer to alice's outstanding U2F challenge
-	pending  c16Pending // a federated login that was started and waits for its callback (when OAuth2 is configured)
+	env       *verifEnv
+	token     *c16Token
+	admin     *http.Cookie
+	signBody  []byte     // the token's answer to alice's outstanding U2F challenge
+	writeLast bool       // reset ends with a write of every profile (nothing was read since)
+	pending   c16Pending // a federated login that was started and waits for its callback (when OAuth2 is configured)
 }
 
 func (cw *c16World) reset(t *testing.T) {
@@ -350,6 +373,17 @@ func (cw *c16World) reset(t *testing.T) {
 		t.Fatalf("sign request refused: %d %s", rr.Code, rr.Body.String())
 	}
 	cw.signBody = cw.token.sign(rr.Body.Bytes())
+	if cw.writeLast {
+		// the schedule starts from a state in which the last storage operation on every profile was a
+		// write (the preparation above ends with a request that reads alice's profile)
+		for _, u := range []string{c16Alice, c16Bob} {
+			if p, ok, _, err := st.LoadUserProfile(u); err == nil && ok {
+				if err := st.SaveUserProfile(u, p); err != nil {
+					t.Fatal(err)
+				}
+			}
+		}
+	}
 }
 
 func (cw *c16World) challenge(u string) bool {
@@ -544,6 +578,21 @@ func c16Handlers() map[string]c16Handler {
 			r.AddCookie(cw.userCookie(c16Alice, AuthTypePassword))
 			return r
 		}})
+	// pure readers of the profile
+	hs = append(hs,
+		c16Handler{"view-alice", c16Alice, func(int64) string { return "HView 1" }, func(cw *c16World) *http.Request {
+			r := verifNewRequest("GET", profilePath, nil)
+			r.AddCookie(cw.userCookie(c16Alice, AuthTypePassword|AuthTypeU2F))
+			return r
+		}},
+		c16Handler{"login-alice", c16Alice, func(int64) string { return "HLogin 1" }, func(cw *c16World) *http.Request {
+			f := url.Values{}
+			f.Set("username", c16Alice)
+			f.Set("password", "alicepw")
+			r := verifNewRequest("POST", "/api/v0/login", f)
+			r.Header.Set("Referer", "https://keymaster.example/")
+			return r
+		}})
 	// the federated login: one pending login (model key 9, state parameter 5) exists after reset
 	hs = append(hs,
 		c16Handler{"oauth-callback", c16Federated, func(int64) string { return "HOauthCallback 9 5" }, func(cw *c16World) *http.Request { return cw.oauthCallbackReq(cw.pending) }},
@@ -622,6 +671,17 @@ func c16ShapeKey(trace []vStep, a, b int) string {
 	return k
 }
 
+type c16Group struct {
+	conc   []string // enumerated under every schedule
+	post   []string // served one after the other once every request of the schedule has been answered
+	loaded bool     // the parking point between the row read and the return of LoadUserProfile is taken
+}
+
+type c16Replay struct {
+	name, kind string
+	code       int
+}
+
 // requests that present a one-time value: several copies in one group present the same value
 var c16OneTime = map[string]string{"bootauth-bob": "bootstrap-otp", "totp-alice": "totp", "u2fsign-alice": "u2f-challenge", "oauth-callback": "oauth2-pending"}
 
@@ -671,6 +731,9 @@ func TestVerif_C16(t *testing.T) {
 	env.handler = env.buildHandler()
 	cw := &c16World{env: env, token: c16NewToken()}
 	cw.admin = env.cookie("admin", AuthTypePassword|AuthTypeU2F)
+	// the password logins of the enumeration are not to be refused by the global attempt limiter (a refused
+	// login reads no profile: the replayed schedules would not be reproducible)
+	env.state.passwordAttemptGlobalLimiter.SetLimit(1e300)
 	// the instrumentation must be live: a load under an active schedule has to park
 	{
 		cw.reset(t)
@@ -717,27 +780,57 @@ func TestVerif_C16(t *testing.T) {
 			}
 		}
 	}
-	var groups [][]string
-	groups = append(groups, pairs...)
-	if verifThorough() {
-		groups = append(groups, triples...)
+	var groups []c16Group
+	for _, p := range pairs {
+		groups = append(groups, c16Group{conc: p})
 	}
-	var cases, idx []string
+	if verifThorough() {
+		for _, tr := range triples {
+			groups = append(groups, c16Group{conc: tr})
+		}
+	}
+	// a reader of the profile || a writer, pre-empted also between the row read and the return of
+	// LoadUserProfile, followed (after both were answered) by a write on another field of the same profile
+	{
+		readers := []string{"view-alice", "login-alice", "u2fsignreq-alice"}
+		writers := []string{"disable1", "delete1"}
+		posts := [][]string{{"rename2b"}}
+		if verifThorough() {
+			writers = append(writers, "rename1a", "deluser-alice", "totp-alice")
+			posts = append(posts, []string{"view-alice", "disable2"}, []string{"totp-alice"})
+		}
+		for _, rd := range readers {
+			for _, wr := range writers {
+				for _, po := range posts {
+					groups = append(groups, c16Group{conc: []string{rd, wr}, post: po, loaded: true})
+				}
+			}
+		}
+	}
+	var cases, idx, rcases, ridx []string
 	users := []string{c16Alice, c16Bob, c16Carol}
-	for _, g := range groups {
+	for _, grp := range groups {
+		g := grp.conc
 		gname := strings.Join(g, "|")
+		if len(grp.post) > 0 {
+			gname += ":then-" + strings.Join(grp.post, ",")
+		}
+		all := append(append([]string{}, grp.conc...), grp.post...)
 		type runObs struct {
 			trace   []vStep
 			outcome c16Outcome
 			counter int64
+			replay  []c16Replay
 		}
 		var runs []runObs
 		var counterNow int64
+		verifLoadedOn.Store(grp.loaded)
+		cw.writeLast = grp.loaded
 		mk := func() []func() {
 			cw.reset(t)
 			counterNow = time.Now().Unix() / 30
 			var bodies []func()
-			cur := c16Outcome{resp: make([]int, len(g))}
+			cur := c16Outcome{resp: make([]int, len(all))}
 			runs = append(runs, runObs{outcome: cur, counter: counterNow})
 			ri := len(runs) - 1
 			for i, name := range g {
@@ -758,12 +851,44 @@ func TestVerif_C16(t *testing.T) {
 		_, err := verifEnumerate(mk, func(trace []vStep) bool {
 			r := &runs[len(runs)-1]
 			r.trace = trace
+			// the requests that follow once every request of the schedule has been answered
+			for k, name := range grp.post {
+				rr, pan := env.serve(hs[name].build(cw))
+				code := c16Status(rr.Code)
+				if pan {
+					code = 599
+				}
+				r.outcome.resp[len(g)+k] = code
+			}
 			for ui, u := range users {
 				r.outcome.profiles[ui] = cw.profile(u)
 				r.outcome.challenges[ui] = cw.challenge(u)
 			}
+			// a one-time value that was honoured in this schedule is presented once more (the same bytes),
+			// after everything has been answered
+			if len(grp.post) == 0 {
+				seen := map[string]bool{}
+				for i, name := range g {
+					kind, one := c16OneTime[name]
+					if !one || seen[name] || r.outcome.resp[i] != 200 {
+						continue
+					}
+					if kind == "totp" && time.Now().Unix()/30 != r.counter {
+						continue // the next step has begun: a presentation now carries another value
+					}
+					seen[name] = true
+					rr, pan := env.serve(hs[name].build(cw))
+					code := c16Status(rr.Code)
+					if pan {
+						code = 599
+					}
+					r.replay = append(r.replay, c16Replay{name: name, kind: kind, code: code})
+				}
+			}
 			return true
 		}, limit)
+		verifLoadedOn.Store(false)
+		cw.writeLast = false
 		if err != nil {
 			res.hit(verifHit{Key: "C16:harness:schedule:" + gname, Oracle: "harness", What: "schedule replay failed: " + err.Error(), Case: gname})
 			continue
@@ -799,10 +924,14 @@ func TestVerif_C16(t *testing.T) {
 							explained = true
 							names := []string{g[a], g[b]}
 							sort.Strings(names)
-							res.hit(verifHit{Key: "C16:nonserial:" + names[0] + "|" + names[1] + ":" + c16ShapeKey(r.trace, a, b), Kind: "schedule",
+							then := ""
+							if len(grp.post) > 0 {
+								then = ":then-" + strings.Join(grp.post, ",")
+							}
+							res.hit(verifHit{Key: "C16:nonserial:" + names[0] + "|" + names[1] + ":" + c16ShapeKey(r.trace, a, b) + then, Kind: "schedule",
 								Oracle: "answers and final profiles equal those of some sequential order of the requests",
-								What:   fmt.Sprintf("requests %v under schedule %s: answers %v, final profiles %v %v %v — no sequential order gives this", g, strings.Join(sched, ""), r.outcome.resp, r.outcome.profiles[0], r.outcome.profiles[1], r.outcome.profiles[2]),
-								Case:   map[string]interface{}{"requests": g, "schedule": sched}, Observed: r.outcome.key()})
+								What:   fmt.Sprintf("requests %v (then, after all were answered: %v) under schedule %s (parking points%s): answers %v, final profiles %v %v %v — no sequential order of the concurrent requests followed by the later ones gives this", g, grp.post, strings.Join(sched, ""), c16AllPoints(r.trace), r.outcome.resp, r.outcome.profiles[0], r.outcome.profiles[1], r.outcome.profiles[2]),
+								Case:   map[string]interface{}{"requests": g, "then": grp.post, "schedule": sched, "points": c16AllPoints(r.trace)}, Observed: r.outcome.key()})
 						}
 					}
 				}
@@ -830,9 +959,50 @@ func TestVerif_C16(t *testing.T) {
 						Case: map[string]interface{}{"requests": g, "schedule": sched}, Observed: r.outcome.key()})
 				}
 			}
+			// the replay of a one-time value after the schedule
+			for _, rp := range r.replay {
+				res.eval(gname+"|"+strings.Join(sched, "")+"|replay:"+rp.name, !c16Serial(r.trace))
+				res.bump("replays_after_schedule_" + rp.kind)
+				if rp.code == 200 {
+					when := "after-overlap"
+					if c16Serial(r.trace) {
+						when = "after-sequence"
+					}
+					res.hit(verifHit{Key: "C16:double-spend:" + rp.kind + ":" + when, Kind: "schedule",
+						Oracle: "a one-time value that was honoured is not honoured again when the same bytes are presented after all requests of the schedule were answered",
+						What:   fmt.Sprintf("requests %v under schedule %s (parking points%s): answers %v; then the %s of %s was presented once more and answered 200 again", g, strings.Join(sched, ""), c16AllPoints(r.trace), r.outcome.resp, rp.kind, rp.name),
+						Case:   map[string]interface{}{"requests": g, "schedule": sched, "points": c16AllPoints(r.trace), "replayed": rp.name}, Observed: r.outcome.key()})
+				}
+			}
+			// the model has no parking point inside a load: a load takes the value the store has at the
+			// moment of the row read, which is where the model's Load sits; the releases from "Loaded" are dropped
+			var msched []string
+			for _, s := range r.trace {
+				if s.point != "Loaded" {
+					msched = append(msched, strconv.Itoa(s.thread))
+				}
+			}
+			for k := range grp.post {
+				for n := 0; n < 16; n++ {
+					msched = append(msched, strconv.Itoa(len(g)+k))
+				}
+			}
+			for _, rp := range r.replay {
+				var hl []string
+				for _, name := range g {
+					hl = append(hl, hs[name].coq(r.counter))
+				}
+				hl = append(hl, hs[rp.name].coq(r.counter))
+				rs := append([]string{}, msched...)
+				for n := 0; n < 16; n++ {
+					rs = append(rs, strconv.Itoa(len(g)))
+				}
+				rcases = append(rcases, fmt.Sprintf("([%s], [%s]%%nat, %d%%nat, Some %d)", strings.Join(hl, "; "), strings.Join(rs, "; "), len(g), rp.code))
+				ridx = append(ridx, fmt.Sprintf("requests=%v schedule=%s points=%s answers=%v then-replay=%s answered=%d", g, strings.Join(sched, ""), c16AllPoints(r.trace), r.outcome.resp, rp.name, rp.code))
+			}
 			// Coq case
 			var hl []string
-			for _, name := range g {
+			for _, name := range all {
 				hl = append(hl, hs[name].coq(r.counter))
 			}
 			var resp []string
@@ -851,14 +1021,14 @@ func TestVerif_C16(t *testing.T) {
 					chals = append(chals, "None")
 				}
 			}
-			cases = append(cases, fmt.Sprintf("([%s], [%s]%%nat, ([%s], [%s], [%s]))", strings.Join(hl, "; "), strings.Join(sched, "; "), strings.Join(resp, "; "), strings.Join(profs, "; "), strings.Join(chals, "; ")))
-			idx = append(idx, fmt.Sprintf("requests=%v schedule=%s points=%s answers=%v alice=%v bob=%v carol=%v challenges=%v", g, strings.Join(sched, ""), c16Shape(r.trace, -1, -1)+c16AllPoints(r.trace), r.outcome.resp, r.outcome.profiles[0], r.outcome.profiles[1], r.outcome.profiles[2], r.outcome.challenges))
+			cases = append(cases, fmt.Sprintf("([%s], [%s]%%nat, ([%s], [%s], [%s]))", strings.Join(hl, "; "), strings.Join(msched, "; "), strings.Join(resp, "; "), strings.Join(profs, "; "), strings.Join(chals, "; ")))
+			idx = append(idx, fmt.Sprintf("requests=%v schedule=%s points=%s answers=%v alice=%v bob=%v carol=%v challenges=%v", all, strings.Join(sched, ""), c16Shape(r.trace, -1, -1)+c16AllPoints(r.trace), r.outcome.resp, r.outcome.profiles[0], r.outcome.profiles[1], r.outcome.profiles[2], r.outcome.challenges))
 		}
 		res.bump("groups")
 		if len(runs) > 0 {
 			last := runs[len(runs)-1]
 			if len(res.Samples) < 6 {
-				res.sample(map[string]interface{}{"requests": g, "schedules": len(runs), "last_answers": last.outcome.resp})
+				res.sample(map[string]interface{}{"requests": g, "then": grp.post, "schedules": len(runs), "last_answers": last.outcome.resp})
 			}
 		}
 	}
@@ -873,6 +1043,10 @@ func TestVerif_C16(t *testing.T) {
 	sb.WriteString("Definition cases : list (list hid * list nat * (list (option N) * list (option profile) * list (option N))) := [\n " + strings.Join(cases, ";\n ") + "].\n")
 	sb.WriteString("Definition c16_bad (c : list hid * list nat * (list (option N) * list (option profile) * list (option N))) : bool :=\n  let '(hs, sched, obs) := c in\n  negb (outcome_eqb (outcome [1; 2; 3] (run_seg (init_world db0 [(M_localAuth, 1, 3); (M_pendingOauth2, 9, 5)] (map handler hs)) sched)) obs).\n")
 	sb.WriteString("Definition c16_mismatches := Eval vm_compute in mismatches c16_bad cases.\nPrint c16_mismatches.\nDefinition c16_ncases := Eval vm_compute in length cases.\nPrint c16_ncases.\n")
+	sb.WriteString("(* a one-time value presented once more after the schedule: (requests ++ [the replay], schedule ++ the replay's turns, index of the replay, its observed answer) *)\n")
+	sb.WriteString("Definition rcases : list (list hid * list nat * nat * option N) := [\n " + strings.Join(rcases, ";\n ") + "].\n")
+	sb.WriteString("Definition c16r_bad (c : list hid * list nat * nat * option N) : bool :=\n  let '(hs, sched, i, obs) := c in\n  negb (oN_eq (resp_at (run_seg (init_world db0 [(M_localAuth, 1, 3); (M_pendingOauth2, 9, 5)] (map handler hs)) sched) i) obs).\n")
+	sb.WriteString("Definition c16r_mismatches := Eval vm_compute in mismatches c16r_bad rcases.\nPrint c16r_mismatches.\nDefinition c16r_ncases := Eval vm_compute in length rcases.\nPrint c16r_ncases.\n")
 	sb.WriteString("(* unseal || requests that serve the published keys, on a state that starts sealed: (requests, schedule, observed answers) *)\n")
 	sb.WriteString("Definition ucases : list (list hid * list nat * list (option N)) := [\n " + strings.Join(ucases, ";\n ") + "].\n")
 	sb.WriteString("Definition c16u_bad (c : list hid * list nat * list (option N)) : bool :=\n  let '(hs, sched, obs) := c in\n  negb (list_eqb oN_eq (map resp (threads (run_seg (init_world [] [] (map handler hs)) sched))) obs).\n")
@@ -882,6 +1056,8 @@ func TestVerif_C16(t *testing.T) {
 	}
 	ioutil.WriteFile(filepath.Join(verifOut(), "CasesC16.idx"), []byte(strings.Join(idx, "\n")), 0644)
 	ioutil.WriteFile(filepath.Join(verifOut(), "CasesC16U.idx"), []byte(strings.Join(uidx, "\n")), 0644)
+	ioutil.WriteFile(filepath.Join(verifOut(), "CasesC16R.idx"), []byte(strings.Join(ridx, "\n")), 0644)
+	res.Extra["replays"] = len(rcases)
 	res.Extra["schedules"] = len(cases)
 	res.Extra["unseal_schedules"] = len(ucases)
 	res.write(t, "TestVerif_C16")
@@ -952,8 +1128,8 @@ func c16UnsealSchedules(t *testing.T, res *verifResult) (cases, idx []string) {
 					}
 					res.hit(verifHit{Key: "C16:unsealed-incomplete-keys:" + name, Kind: "schedule",
 						Oracle: "a request served while the unseal request runs sees the server either sealed or unsealed with its complete key material",
-						What: fmt.Sprintf("requests %v under schedule %s (parking points%s): GET %s was answered 200 with %d bytes %q while the same request after the unseal has finished gives %d bytes", g, strings.Join(sched, ""), c16AllPoints(trace), routes[name], len(r.bodies[i]), c16Trunc(r.bodies[i]), rr.Body.Len()),
-						Case: map[string]interface{}{"requests": g, "schedule": sched}})
+						What:   fmt.Sprintf("requests %v under schedule %s (parking points%s): GET %s was answered 200 with %d bytes %q while the same request after the unseal has finished gives %d bytes", g, strings.Join(sched, ""), c16AllPoints(trace), routes[name], len(r.bodies[i]), c16Trunc(r.bodies[i]), rr.Body.Len()),
+						Case:   map[string]interface{}{"requests": g, "schedule": sched}})
 				}
 			}
 			return true
